@@ -371,6 +371,40 @@ Proof.
 Qed.
 
 (* ------------------------------------------------------------------ *)
+(* the whole request: columns no rule names keep their cells; in every column every version that
+   existed before still exists afterwards (a version is only ever replaced at the very timestamp
+   a rule writes) *)
+Theorem rmw_rules_untouched : forall tf now rules fs res fs' res' f q,
+  rmw_rules tf now rules fs res = Some (fs', res') ->
+  existsb (targets f q) rules = false -> cells_of fs' f q = cells_of fs f q.
+Proof.
+  intros tf now rules. induction rules as [|a l IHl]; intros fs0 res0 fs1 res1 f q H Hex.
+  - cbn in H. injection H as <- <-. reflexivity.
+  - rewrite rmw_rules_cons in H. destruct (rmw_new_cell tf now a fs0) as [nc|]; [|discriminate].
+    cbn [existsb] in Hex. apply orb_false_elim in Hex. destruct Hex as [Ha Hl].
+    rewrite (IHl _ _ _ _ f q H Hl). unfold rmw_write. rewrite cells_of_upd_col.
+    unfold targets in Ha. rewrite Ha. reflexivity.
+Qed.
+
+Theorem rmw_rules_keep_versions : forall tf now rules fs res fs' res',
+  fams_ok fs -> rmw_rules tf now rules fs res = Some (fs', res') ->
+  forall f q t, abs_fams fs f q t <> None -> abs_fams fs' f q t <> None.
+Proof.
+  intros tf now rules. induction rules as [|rule rest IH]; intros fs res fs' res' Hok H f q t Hin.
+  - cbn in H. injection H as <- <-. exact Hin.
+  - rewrite rmw_rules_cons in H. destruct (rmw_new_cell tf now rule fs) as [nc|] eqn:En; [|discriminate].
+    destruct (rmw_rule_spec tf now rule fs nc Hok En) as [Hok1 [_ [_ [_ [_ [Hnew Hframe]]]]]].
+    apply (IH _ _ _ _ Hok1 H f q t).
+    destruct (list_eq_dec N.eq_dec f (fst (rule_target rule))) as [Ef|Nf];
+    [destruct (list_eq_dec N.eq_dec q (snd (rule_target rule))) as [Eq|Nq];
+     [destruct (Z.eq_dec t (c_ts nc)) as [Et|Nt]|]|].
+    + subst f q t. rewrite Hnew. discriminate.
+    + rewrite Hframe; [exact Hin|]. intros E. injection E as _ _ E. contradiction.
+    + rewrite Hframe; [exact Hin|]. intros E. injection E as _ E _. contradiction.
+    + rewrite Hframe; [exact Hin|]. intros E. injection E as E _ _. contradiction.
+Qed.
+
+(* ------------------------------------------------------------------ *)
 (* failure is atomic *)
 Theorem rmw_unknown_family_fails : forall tf now rules fs res rule,
   In rule rules -> known_family tf (fst (rule_target rule)) = false ->
